@@ -39,8 +39,8 @@ def viewToFL (full : List VEnt) : List FL.Ent :=
 
 /-- FilterOpt as NewFilterFS builds its matchers: FollowPaths are resolved against the unfiltered view and appended to the
 include patterns, then de-duplicated (filter.go) -/
-def parseSFilterWith (j : Json) (full : List VEnt) : Except String (Option F.Cfg) := do
-  match j.getObjVal? "sfilter" with
+def parseSFilterKey (key : String) (j : Json) (full : List VEnt) : Except String (Option F.Cfg) := do
+  match j.getObjVal? key with
   | .ok f =>
     let inc := (getHexArr f "include").toOption.getD []
     let exc := (getHexArr f "exclude").toOption.getD []
@@ -53,6 +53,8 @@ def parseSFilterWith (j : Json) (full : List VEnt) : Except String (Option F.Cfg
       | .error _ => pure inc
     return some { inc := P.parsePatterns inc', exc := P.parsePatterns exc }
   | .error _ => return none
+
+def parseSFilterWith (j : Json) (full : List VEnt) : Except String (Option F.Cfg) := parseSFilterKey "sfilter" j full
 
 def parseSFilter (j : Json) : Except String (Option F.Cfg) := parseSFilterWith j []
 
@@ -84,10 +86,11 @@ def hSync (j : Json) : Except String Json := do
   let full ← parseView j
   let sf ← parseSFilterWith j full
   -- an optional second filter stacked on top of the first (NewFilterFS(NewFilterFS(fs, sfilter), sfilter2))
-  let sf2 : Option F.Cfg := match j.getObjVal? "sfilter2" with
-    | .ok f => some { inc := P.parsePatterns ((getHexArr f "include").toOption.getD []),
-                      exc := P.parsePatterns ((getHexArr f "exclude").toOption.getD []) }
-    | .error _ => none
+  -- (its follow paths are resolved in the view of the filter below it, not in the raw tree)
+  let below := match sf with
+    | some cfg => F.senderView Fix.f9 cfg full
+    | none => full
+  let sf2 ← parseSFilterKey "sfilter2" j below
   let view := match sf, sf2 with
     | some cfg, some cfg2 => F.senderViewN Fix.f9 [cfg, cfg2] full
     | some cfg, none => F.senderView Fix.f9 cfg full
